@@ -11,7 +11,7 @@ PROPS = {
     'C01': dict(
         title='Every diagram the library hands back is well-typed',
         level='proof',
-        vc=CORE_VC + ['monoidal.Diagram.__init__[scan]', 'monoidal.Diagram.then', 'monoidal.Diagram.tensor',
+        vc=CORE_VC + ['cat.Arrow.__init__[scan]', 'monoidal.Diagram.__init__[scan]', 'monoidal.Diagram.then', 'monoidal.Diagram.tensor',
                       'monoidal.Diagram.__getitem__', 'rewriting.interchange', 'rewriting.interchange[far]', 'rewriting.normalize',
                       'lemma:canary:then.len'],
         sym=[], rtc='C01',
